@@ -38,6 +38,9 @@ type c20Case struct {
 	Shape   []string   `json:"shape"` // nest: container kinds from the outside in: "s" slice, "m" map, "p" pointer, "i" interface
 	Repeat  int        `json:"repeat"`
 	Leaf    string     `json:"leaf"` // nest: what sits innermost: "" an int; empty containers of several types otherwise
+	Opt     string     `json:"opt"`     // awk: option set
+	Calls   int        `json:"calls"`   // awk: calls made
+	Panics  [][]string `json:"panics"`  // awk: [call, panic text]
 	Outcome string     `json:"outcome"` // ok | err | panic | crash | timeout
 	Detail  string     `json:"detail"`
 }
@@ -139,6 +142,17 @@ func c20Run(c *c20Case) {
 			c.Outcome, c.Detail = "panic", fmt.Sprint(r)
 		}
 	}()
+	if c.Kind == "awk" {
+		c.Calls, c.Panics = awkRun(awkTypes[c.Root], awkOptSets[c.Opt])
+		c.Outcome = "ok"
+		if len(c.Panics) > 0 {
+			c.Outcome, c.Detail = "panic", c.Panics[0][0]+": "+c.Panics[0][1]
+			if len(c.Panics) > 8 {
+				c.Panics = c.Panics[:8]
+			}
+		}
+		return
+	}
 	var v any
 	if c.Kind == "heap" {
 		v = buildHeap(c.Nodes, c.Root)
@@ -202,6 +216,9 @@ func c20Cases() []c20Case {
 		if c.Nodes == nil {
 			c.Nodes = []heapNode{}
 		}
+		if c.Panics == nil {
+			c.Panics = [][]string{}
+		}
 		if c.Shape == nil {
 			c.Shape = []string{}
 		}
@@ -239,6 +256,12 @@ func c20Cases() []c20Case {
 		for _, d := range []int{9998, 9999, 10000} {
 			add(c20Case{Name: fmt.Sprintf("leaf-%s-slice-%d", leaf, d), Kind: "nest", Shape: []string{"s"}, Repeat: d, Leaf: leaf})
 			add(c20Case{Name: fmt.Sprintf("leaf-%s-map-%d", leaf, d), Kind: "nest", Shape: []string{"m"}, Repeat: d, Leaf: leaf})
+		}
+	}
+	// struct shapes reflection can only half reach: no input may make a call panic
+	for i, t := range awkTypes {
+		for _, o := range []string{"default", "reject", "dups-ci", "v1", "omitzero"} {
+			add(c20Case{Name: "awk-" + t.Name() + "-" + o, Kind: "awk", Root: i, Opt: o})
 		}
 	}
 	add(c20Case{Name: "nest-mixed-10000", Kind: "nest", Shape: []string{"s", "m", "p", "s", "i"}, Repeat: 3334}) // 10002 containers
